@@ -265,10 +265,13 @@ static void snapshot(hctx_t *h, int final)
 		navail += (uint32_t)now;
 		if (now && (p != h->prev[i] || final)) {
 			/* C01: every available source symbol is byte-identical to the encoded one */
-			if ((h->mon & (MON_C01 | MON_C16 | MON_C11)) && memcmp(p, b->sym[i], h->L)) {
+			/* the application reads what the library hands over: under C07 this read is what lets ASan / memcheck see a
+			 * dangling or short buffer; under C03 "recovers" means the right bytes, not only the completion flag */
+			if ((h->mon & (MON_C01 | MON_C16 | MON_C11 | MON_C07 | MON_C03)) && memcmp(p, b->sym[i], h->L)) {
 				const char *stg = h->in_finish ? "finish" : "submission";
 				if (ON("C01")) { snprintf(key, sizeof key, "wrong-symbol:%s:%s", h->cname, stg); rep_viol(key, "source %u differs from the encoded symbol", i); }
 				if (ON("C16")) rep_viol("2d-wrong-symbol", "source %u differs from the encoded symbol", i);
+				if (ON("C03") && h->in_finish) rep_viol("ml-recovered-wrong-symbol", "of_finish_decoding made source %u available with bytes that differ from the encoded symbol", i);
 				if (ON("C02")) { snprintf(key, sizeof key, "mds-fail:%s", h->cname); rep_viol(key, "decoded source %u is wrong", i); }
 				if (ON("C11") && !h->submitted[i]) { snprintf(key, sizeof key, "cb-buffer-not-filled:%s", h->cname); rep_viol(key, "decoded source %u does not hold the decoded value", i); }
 			}
